@@ -102,6 +102,9 @@ func runC09(p *eng.Prog, r *eng.Report, tier string) {
 	c.r.Floor("C09.29", "deferred releases of a mutex", deferredReleaseNotInLoop(c, "C09.29"), 20)
 	r.Floor("C09.27", "comparisons of interface values", interfaceComparisonsCannotPanic(c, "C09.27"), 10)
 	r.Floor("C09.28", "blocking channel operations", lockHeldAcrossChannelOp(c, "C09.28", ""), 10)
+	c.r.Note("C09.30: %d integer divisions with a non-constant divisor", divisorsNotZero(c, "C09.30"))
+	c.r.Note("C09.31: %d dereferences of optional scalar fields", optionalPointersTested(c, "C09.31"))
+	c.r.Note("C09.32: %d stores into lazily allocated map fields", mapFieldsAllocatedBeforeStores(c, "C09.32"))
 	fns, why := serveScopeWith(c, true)
 	servefns, servewhy := serveScope(c)
 	r.Note("scope: %d functions exposed to peer input", len(fns))
